@@ -242,7 +242,12 @@ fn perform_exp_for_small_power(span: &mut SpanBuilder, pow: u64) {
 /// Appends a sequence of operations to calculate the base 2 integer logarithm of the stack top
 /// element, using non-deterministic technique (i.e. it takes help of advice provider).
 ///
-/// This operation takes 44 VM cycles.
+/// The value provided by the advice provider is verified: for the result `ilog2` and
+/// `pow2 = 2^ilog2` it must hold that `pow2 <= n < 2 * pow2`. Since `2 * pow2` may not be
+/// representable as a field element, this is checked as `pow2 <= n` and `n - pow2 < pow2`, with
+/// field elements compared as integers.
+///
+/// This operation takes 58 VM cycles.
 ///
 /// # Errors
 /// Returns an error if the logarithm argument (top stack element) equals ZERO.
@@ -250,33 +255,27 @@ pub fn ilog2(span: &mut SpanBuilder) -> Result<Option<CodeBlock>, AssemblyError>
     span.push_advice_injector(ILog2);
     span.push_op(AdvPop); // [ilog2, n, ...]
 
-    // compute the power-of-two for the value given in the advice tape (17 cycles)
+    // compute the power-of-two for the value given in the advice tape (17 cycles); this also
+    // ensures that the value is smaller than 64
     span.push_op(Dup0);
     append_pow2_op(span);
     // => [pow2, ilog2, n, ...]
 
-    #[rustfmt::skip]
-    let ops = [
-        // split the words into u32 halves to use the bitwise operations (4 cycles)
-        MovUp2, U32split, MovUp2, U32split,
-        // => [pow2_high, pow2_low, n_high, n_low, ilog2, ...]
+    // check that n is not smaller than pow2 (18 cycles)
+    span.push_ops([Dup2, Dup1]);
+    // => [pow2, n, pow2, ilog2, n, ...]
+    lt(span)?;
+    // => [n < pow2, pow2, ilog2, n, ...]
+    span.push_ops([Eqz, Assert(0)]);
+    // => [pow2, ilog2, n, ...]
 
-        // only one of the two halves in pow2 has a bit set, drop the other (9 cycles)
-        Dup1, Eqz, Dup0, MovDn3,
-        // => [drop_low, pow2_high, pow2_low, drop_low, n_high, n_low, ilog2, ...]
-        CSwap, Drop, MovDn3, CSwap, Drop,
-        // => [n_half, pow2_half, ilog2, ...]
-
-        // set all bits to 1 lower than pow2_half (00010000 -> 00011111)
-        Swap, Pad, Incr, Incr, Mul, Pad, Incr, Neg, Add, 
-        // => [pow2_half * 2 - 1, n_half, ilog2, ...]
-        Dup1, U32and, 
-        // => [m, n_half, ilog2, ...] if ilog2 calculation was correct, m should be equal to n_half
-        Eq, Assert(0),
-        // => [ilog2, ...]
-    ];
-
-    span.add_ops(ops)
+    // check that n - pow2 is smaller than pow2 (21 cycles)
+    span.push_ops([Dup0, MovUp3, Swap, Neg, Add, Swap]);
+    // => [pow2, n - pow2, ilog2, ...]
+    lt(span)?;
+    // => [n - pow2 < pow2, ilog2, ...]
+    span.add_op(Assert(0))
+    // => [ilog2, ...]
 }
 
 // COMPARISON OPERATIONS
